@@ -20,8 +20,8 @@ from pybrops.breed.prot.mate import util as mate_util
 from pybrops.core.util import mate as core_mate
 
 ASSUMPTIONS = [
-    "progeny/family counters stay below 10**7 (names are zero-padded to 7 digits and mate() ends with a taxa grouping whose "
-    "tie-break is the name)",
+    "once a progeny counter needs 8 digits (names are zero-padded to 7 and mate() ends with a taxa grouping whose tie-break is "
+    "the name) the order inside a family is not asserted; every progeny is then located through the counter in its own name",
     "at least one progeny is requested in total (individual crosses may have zero matings/progeny)",
     "starting copy at the first marker is unconstrained (no interval precedes it)",
 ]
@@ -140,9 +140,11 @@ def mate_case(draw):
             case["nmating"][k] = max(1, case["nmating"][k])
         if isinstance(case["nprogeny"], list):
             case["nprogeny"][k] = max(1, case["nprogeny"][k])
+    # some parents are addressed through negative indices (the same taxon counted from the end, as numpy indexing allows)
+    case["negative_index"] = draw(st.sampled_from([False, False, True]))
     case["nself"] = draw(st.sampled_from([0, 0, 0, 1, 2, 3]))
     case["rng"] = draw(gens.rng_spec())
-    case["pc0"] = draw(st.sampled_from([0, 0, 7, 12345, 9990000]))
+    case["pc0"] = draw(st.sampled_from([0, 0, 7, 12345, 9990000, 9999995, 10 ** 7, 123456789]))
     case["fc0"] = draw(st.sampled_from([0, 0, 3, 4000]))
     case["second_call"] = draw(st.booleans())
     case["miscout"] = draw(st.booleans())
@@ -169,6 +171,9 @@ def check_mate(case, ctx):
     pg = gens.build_pgmat(mat.copy(), lay)
     xoprob = numpy.array(lay["xoprob"], dtype="float64")
     xconfig = numpy.array(case["xconfig"], dtype="int64")
+    if case.get("negative_index"):
+        neg = (numpy.arange(xconfig.size).reshape(xconfig.shape) % 2) == 0
+        xconfig = numpy.where(neg, xconfig - n, xconfig)          # index i - n denotes the same taxon as i
     ncross = len(xconfig)
     nm = _counts(case["nmating"], ncross)
     npg = _counts(case["nprogeny"], ncross)
@@ -195,6 +200,7 @@ def check_mate(case, ctx):
     ctx.label("second_call", case["second_call"])
     ctx.label("single_marker", p == 1)
     ctx.label("single_taxon", n == 1)
+    ctx.label("negative_parent_index", bool(case.get("negative_index")))
 
     outs = []
     pc, fc = case["pc0"], case["fc0"]
@@ -224,12 +230,27 @@ def check_mate(case, ctx):
         if not ctx.check(g.ndim == 3 and g.shape == (2, N, p), "count.ntaxa", "shape %s expected (2,%d,%d)" % (g.shape, N, p)):
             return
         ctx.check(g.dtype == numpy.dtype("int8"), "dtype")
-        # expected cross of every position (cross-major order), mating index within the cross
-        cross_of, mating_of = [], []
+        # expected cross of every progeny in generation order (cross-major), mating index within the cross
+        gen_cross, gen_mating = [], []
         for c in range(ncross):
             for q in range(nm[c] * npg[c]):
-                cross_of.append(c)
-                mating_of.append(q // npg[c] if npg[c] else 0)
+                gen_cross.append(c)
+                gen_mating.append(q // npg[c] if npg[c] else 0)
+        # Names are zero-padded to 7 digits and mate() ends with a grouping whose tie-break is the name, so once a progeny
+        # number needs 8 digits the order inside a family is no longer the generation order ('dh10000000' < 'dh9999998').
+        # Then each progeny is located through the counter embedded in its own name instead of through its position.
+        rollover = pc0 + N > 10 ** 7
+        ctx.label("counter_rollover", rollover)
+        cross_of, mating_of = list(gen_cross), list(gen_mating)
+        if rollover:
+            tx0 = out.taxa
+            ms0 = [NAME_RE.match(str(x)) for x in tx0] if tx0 is not None and len(tx0) == N else []
+            nums0 = [int(m.group(2)) - pc0 for m in ms0 if m is not None]
+            if not ctx.check(len(nums0) == N and sorted(nums0) == list(range(N)), "names.counter",
+                             lambda: "names %s are not the %d distinct progeny numbers starting at %d" % ([str(x) for x in tx0][:8], N, pc0)):
+                return
+            cross_of = [gen_cross[q] for q in nums0]
+            mating_of = [gen_mating[q] for q in nums0]
         # family labels
         tg = out.taxa_grp
         if ctx.check(tg is not None and len(tg) == N, "family.labels_missing"):
@@ -243,7 +264,10 @@ def check_mate(case, ctx):
             ms = [NAME_RE.match(s) for s in names]
             if ctx.check(all(m is not None for m in ms), "names.format", str(names[:4])):
                 nums = [int(m.group(2)) for m in ms]
-                ctx.check(nums == list(range(pc0, pc0 + N)), "names.counter", lambda: "%s expected counters %d.." % (names[:6], pc0))
+                if rollover:
+                    ctx.check(sorted(nums) == list(range(pc0, pc0 + N)), "names.counter", lambda: "%s expected counters %d.." % (names[:6], pc0))
+                else:
+                    ctx.check(nums == list(range(pc0, pc0 + N)), "names.counter", lambda: "%s expected counters %d.." % (names[:6], pc0))
                 ctx.check(len(set(m.group(1) for m in ms)) == 1, "names.prefix_varies")
         # grouping metadata describes a true partition
         if out.is_grouped_taxa():
